@@ -511,6 +511,7 @@ func cmdCheck(args []string) int {
 		symViol[nw[0]+"|"+nw[1]] = true
 	}
 	seedFail := map[string]int{} // harness|kind -> witness index of a natively failing seed
+	var nativeOnly []pref
 	validated, disagreements, seedsOK := 0, 0, 0
 	nativeReached := map[string]map[string]bool{}
 	var disagreeMsgs []string
@@ -580,6 +581,14 @@ func cmdCheck(args []string) int {
 			for _, l := range o.Reached {
 				nativeReached[pr.h.Name][l] = true
 			}
+		} else if (o.Outcome == "assert" || o.Outcome == "panic" || o.Outcome == "crash") && pr.h.Kind != "lemma" {
+			// the real build fails the harness on a concrete input although the
+			// symbolic run of the same path passed: something the engine's model
+			// abstracts (documented: unsafe views are snapshots, so memory shared
+			// between a decoded value and its input buffer is invisible to it) matters
+			// here. The concrete failing run is the evidence; it is reported as a
+			// violation found by replay, not hidden behind an engine error.
+			nativeOnly = append(nativeOnly, pr)
 		} else {
 			disagreements++
 			if len(disagreeMsgs) < 5 {
@@ -670,6 +679,27 @@ func cmdCheck(args []string) int {
 		os.WriteFile(path, wj, 0o644)
 		fmt.Printf("VIOLATION property=%s replay=%s\n", prop, path)
 		fmt.Printf("  harness=%s kind=%s label=%q native=%s %q inputs=%v\n", vr.h.Name, vr.v.Kind, vr.v.Label, o.Outcome, o.Msg, w.Inputs)
+		violSamples = append(violSamples, w)
+		exit = 1
+	}
+
+	// failures seen only by the native replay of a symbolically passing path
+	for _, pr := range nativeOnly {
+		o := outs[pr.pkg][pr.idx]
+		key := pr.h.Name + "|native|" + o.Outcome + "|" + o.Msg
+		nViol++
+		if reported[key] {
+			continue
+		}
+		reported[key] = true
+		w := perPkg[pr.pkg][pr.idx]
+		w.Expect, w.Label, w.Property, w.Pkg = o.Outcome, o.Msg, prop, pr.h.Pkg
+		name := fmt.Sprintf("%s-native-%d.json", pr.h.Name, len(reported))
+		path := filepath.Join(*verif, "replays", prop, name)
+		wj, _ := json.MarshalIndent(w, "", " ")
+		os.WriteFile(path, wj, 0o644)
+		fmt.Printf("VIOLATION property=%s replay=%s\n", prop, path)
+		fmt.Printf("  harness=%s kind=%s label=%q native=%s %q inputs=%v (found by the native replay of a symbolically passing path: the engine's memory model does not expose it)\n", pr.h.Name, o.Outcome, o.Msg, o.Outcome, o.Msg, w.Inputs)
 		violSamples = append(violSamples, w)
 		exit = 1
 	}
